@@ -2,12 +2,13 @@
 # tools/verify_seed.sh <dir with patch.diff and demo.py>  — confirm: pristine demo exits 0; patched: suite passes, demo exits 1.
 DIR="$1"
 D=$(mktemp -d /tmp/pyvc-seed-XXXXXX)
+DEMO="$DIR/demo.py"; [ -f "$DIR/demo_head.py" ] && DEMO="$DIR/demo_head.py"   # demonstration rebased on the repaired tree
 git -C /repo worktree add -q --detach "$D/repo" HEAD || exit 3
 cd "$D/repo"
-PYTHONPATH="$D/repo" /venv/bin/python "$DIR/demo.py" > "$D/demo0.out" 2>&1; d0=$?
+PYTHONPATH="$D/repo" /venv/bin/python "$DEMO" > "$D/demo0.out" 2>&1; d0=$?
 ( git apply "$DIR/patch.diff" 2>/dev/null || git apply --3way "$DIR/patch.diff" ) || { echo "PATCH-FAIL"; cd /; git -C /repo worktree remove --force "$D/repo"; rm -rf "$D"; exit 3; }
 PYTHONPATH="$D/repo" /venv/bin/python -m pytest -q -p no:cacheprovider -x > "$D/suite.out" 2>&1; s=$?
-PYTHONPATH="$D/repo" /venv/bin/python "$DIR/demo.py" > "$D/demo1.out" 2>&1; d1=$?
+PYTHONPATH="$D/repo" /venv/bin/python "$DEMO" > "$D/demo1.out" 2>&1; d1=$?
 echo "$DIR pristine_demo=$d0 suite_exit=$s ($(tail -1 $D/suite.out)) patched_demo=$d1"
 cd /
 git -C /repo worktree remove --force "$D/repo"; rm -rf "$D"
